@@ -7,7 +7,7 @@ PROP = dict(
           "a merge of the same document created without encryption on another node; every written value is a unique byte pattern. After every operation the blocks it produced are classified "
           "(key block linked: document key / field key / none; fresh or inherited) and compared with the model; `scan` searches every block of the shared blockstore and every update notification for every "
           "written pattern and for every key; a key-less receiver (real key service answered with an empty reply) and a key-holding receiver (real key service over an in-process transport) merge the DAG; "
-          "a case is one document history; distinct = distinct histories"),
+          "a case is one document history; distinct = distinct histories; every third case creates its document through a GraphQL create with a list input whose first element sets none of the fields"),
     assumptions=[
         "AES-GCM ciphertext does not contain its plaintext and decrypts to it under the same key (Cipher.sound is the modelled half; the scan checks the other half on every generated value)",
         "update notifications reach the network layer only as event.Update messages on the node's bus (net/peer.go handleLog reads exactly these)",
